@@ -1,9 +1,80 @@
 import Driver.Util
+import Lattigo.Model.EncoderT
 
+/-
+  C07 line protocol, integer half (harness/c07_bgv.go); first token after C07 is `bgv`:
+
+    bgv perm <logN>                                                         ⇒ perm vector
+    bgv ringt   t= g= n= scale= kind=u|i vals=                              ⇒ EncodeRingT coefficients | err
+    bgv unringt t= g= n= scale= kind=u|i len= p=<vec>                       ⇒ DecodeRingT values
+    bgv encode  t= g= n= N= qs= scale= batched=0|1 kind=u|i vals=           ⇒ canonical plaintext rows | err
+    bgv decode  t= g= n= N= qs= scale= batched=0|1 kind=u|i len= rows=<mat> ⇒ Decode values
+-/
 namespace Driver.C07
-open Driver
+open Driver Lattigo Lattigo.EncoderT
 
-/-- stub: replaced by the property's real handler -/
-def handle (_toks : List String) : String := badOp
+def nat? (toks : List String) (k : String) : Option Nat := (kv? toks k).bind parseNat?
+
+def tables? (toks : List String) : Option NTT.Tables := do
+  let t ← nat? toks "t"
+  let g ← nat? toks "g"
+  let n ← nat? toks "n"
+  pure (NTT.mkTables n t (2 * n) g)
+
+def vals? (toks : List String) : Option Vals := do
+  let kind ← kv? toks "kind"
+  let v ← kv? toks "vals"
+  if kind == "u" then (parseVec? v).map Vals.u else (parseIVec? v).map Vals.i
+
+def params? (toks : List String) : Option Params := do
+  let T ← tables? toks
+  let bigN ← nat? toks "N"
+  let qs ← (kv? toks "qs").bind parseVec?
+  pure { T := T, perm := permuteMatrix (Nat.log2 T.n), bigN := bigN, qs := qs }
+
+def handleBgv (toks : List String) : Option String :=
+  match toks with
+  | ["perm", k] => (parseNat? k).map fun k => showVec (permuteMatrix k)
+  | "ringt" :: rest => do
+    let T ← tables? rest
+    let scale ← nat? rest "scale"
+    let v ← vals? rest
+    let perm := permuteMatrix (Nat.log2 T.n)
+    let buf := List.replicate T.n 0
+    let r := match v with
+      | .u v => encodeRingTU T perm v scale buf
+      | .i v => encodeRingTI T perm v scale buf
+    pure (match r with | some p => showVec p | none => "err")
+  | "unringt" :: rest => do
+    let T ← tables? rest
+    let scale ← nat? rest "scale"
+    let kind ← kv? rest "kind"
+    let len ← nat? rest "len"
+    let p ← (kv? rest "p").bind parseVec?
+    let perm := permuteMatrix (Nat.log2 T.n)
+    pure (if kind == "u" then showVec (decodeRingTU T perm scale p len)
+          else showIVec (decodeRingTI T perm scale p len))
+  | "encode" :: rest => do
+    let P ← params? rest
+    let scale ← nat? rest "scale"
+    let batched ← nat? rest "batched"
+    let v ← vals? rest
+    pure (match encode P (batched == 1) scale v with | some a => showMat a.c | none => "err")
+  | "decode" :: rest => do
+    let P ← params? rest
+    let scale ← nat? rest "scale"
+    let batched ← nat? rest "batched"
+    let kind ← kv? rest "kind"
+    let len ← nat? rest "len"
+    let rows ← (kv? rest "rows").bind parseMat?
+    let a : RPoly := { qs := P.qs, c := rows }
+    pure (if kind == "u" then showVec (decodeU P (batched == 1) scale a len)
+          else showIVec (decodeI P (batched == 1) scale a len))
+  | _ => none
+
+def handle (toks : List String) : String :=
+  match toks with
+  | "bgv" :: rest => (handleBgv rest).getD badOp
+  | _ => badOp
 
 end Driver.C07
